@@ -5,6 +5,8 @@ import (
 	"errors"
 	"sync"
 	"time"
+
+	"github.com/gordian-engine/gordian/internal/verifhook"
 )
 
 // RoundTimer is the interface the state machine uses to manage timeouts per step.
@@ -76,6 +78,8 @@ func (t *StandardRoundTimer) Wait() {
 }
 
 func (t *StandardRoundTimer) background(ctx context.Context) {
+	defer verifhook.Catch(ctx, "tmstate.roundtimer")
+
 	defer close(t.bgDone)
 
 	// One timer for the main loop.
@@ -123,6 +127,8 @@ func (t *StandardRoundTimer) background(ctx context.Context) {
 				},
 			}
 		}
+
+		verifhook.Point(ctx, "roundtimer.armed")
 
 		// The timer is running.
 		select {
